@@ -16,7 +16,11 @@ use serde::de::DeserializeOwned;
 use serde::{Deserialize, Serialize};
 use serde_json::{Value, json};
 
-pub const VERIF_DIR: &str = "/verif";
+/// Home of corpus/, known_findings.json, evidence/ and replays/. Always /verif for the
+/// registered checks; soak runs point it elsewhere (VERIF_HOME) to keep evidence apart.
+pub fn verif_dir() -> PathBuf {
+    std::env::var_os("VERIF_HOME").map(PathBuf::from).unwrap_or_else(|| PathBuf::from("/verif"))
+}
 
 #[derive(Debug, Clone, Copy, PartialEq, Eq, Serialize, Deserialize)]
 #[serde(rename_all = "lowercase")]
@@ -150,7 +154,7 @@ pub struct KnownFinding {
 }
 
 pub fn load_known(id: &str) -> Vec<KnownFinding> {
-    let p = Path::new(VERIF_DIR).join("known_findings.json");
+    let p = verif_dir().join("known_findings.json");
     let Ok(s) = std::fs::read_to_string(&p) else {
         return vec![];
     };
@@ -317,7 +321,7 @@ pub struct ReplayFile {
 }
 
 fn write_replay(id: &str, seed: u64, f: &Failure, case: &Value) -> String {
-    let dir = Path::new(VERIF_DIR).join("replays").join(id);
+    let dir = verif_dir().join("replays").join(id);
     std::fs::create_dir_all(&dir).expect("create replays dir");
     let body = serde_json::to_string_pretty(&ReplayFile {
         property: id.to_string(),
@@ -395,6 +399,7 @@ struct Acc {
     res: WorkerResult,
     hashes: BTreeSet<u64>,
     failed: bool,
+    fallback_sample: Option<Value>,
 }
 
 impl Acc {
@@ -411,6 +416,13 @@ impl Acc {
             if self.hashes.insert(h) && self.res.samples.len() < 3 {
                 self.res.samples.push(sample_value(case_json));
             }
+        } else if cx.inner_nontrivial > 0 && self.res.samples.len() < 3 {
+            // enumerating checks: the scenario is the sample; its inner values are counted
+            // separately (distinct by construction)
+            self.res.samples.push(sample_value(case_json));
+        }
+        if self.fallback_sample.is_none() {
+            self.fallback_sample = Some(sample_value(case_json));
         }
         for k in &cx.known_hits {
             if !self.res.known_hits.iter().any(|x| x.signature == k.signature) {
@@ -468,6 +480,7 @@ where
             res: WorkerResult::default(),
             hashes: BTreeSet::new(),
             failed: false,
+            fallback_sample: None,
         });
         let watch = Arc::new(Watch {
             current: Mutex::new(None),
@@ -477,7 +490,7 @@ where
 
         // Phase 0: corpus replay (worker 0 only).
         if args.index == 0 {
-            let dir = Path::new(VERIF_DIR).join("corpus").join(self.id);
+            let dir = verif_dir().join("corpus").join(self.id);
             let mut files: Vec<PathBuf> = std::fs::read_dir(&dir)
                 .map(|rd| rd.filter_map(|e| e.ok().map(|e| e.path())).collect())
                 .unwrap_or_default();
@@ -634,6 +647,11 @@ where
         }
         watch.done.store(true, Ordering::SeqCst);
         let mut a = acc.into_inner();
+        if a.res.samples.is_empty() {
+            if let Some(f) = a.fallback_sample.take() {
+                a.res.samples.push(f);
+            }
+        }
         a.res.nontrivial_hashes = a.hashes.into_iter().collect();
         a.res
     }
@@ -885,7 +903,7 @@ pub fn run_parent(prop: &dyn PropDyn, tier: Tier, seed: u64, nworkers: u32) -> P
         "wall_s": (wall * 1000.0).round() / 1000.0,
         "violations": uniq_violations.len(),
     });
-    let evdir = Path::new(VERIF_DIR).join("evidence");
+    let evdir = verif_dir().join("evidence");
     std::fs::create_dir_all(&evdir).expect("create evidence dir");
     std::fs::write(
         evdir.join(format!("{id}.json")),
